@@ -29,6 +29,7 @@ import (
 	"google.golang.org/protobuf/proto"
 
 	"verifharness/fx"
+	"verifharness/ka"
 	"verifharness/meas"
 	"verifharness/rp"
 	"verifharness/vk"
@@ -319,6 +320,9 @@ func RunC06(run *vk.Run) {
 		}
 	})
 	checkCommandLine(run)
+	// the whole decision table of the endorse command's flags (EndorseFlags.tla): the request the command
+	// prepares names what the command line asked for
+	ka.EndorseRequestPredicates(run)
 	checkOutOfOrderSections(run)
 	// failure injection: a measurement that cannot be computed must yield no document
 	ca, signer, _ := fx.DevAuthority()
@@ -349,7 +353,7 @@ func RunC06(run *vk.Run) {
 		run.Case("fail:"+c.name, true)
 	}
 	run.Exhaustive = !run.IsQuick()
-	run.Rule = "every request row of Golden.tla (technology subsets x VMSA counts {all,1,2,240} x product x 5 shape lists x early accept x SVSM x provenance = 960; quick a seeded third) is run through the real GoldenMeasurement and SignDoc on a 2 MiB image; every entry is compared with a separate single-configuration call of sev.LaunchDigest / tdx.MRTD, the digest with SHA-384, the remaining fields with the request; plus failure injection with images valid for one technology only"
+	run.Rule = "every request row of Golden.tla (technology subsets x VMSA counts {all,1,2,240} x product x 5 shape lists x early accept x SVSM x provenance = 960; quick a seeded third) is run through the real GoldenMeasurement and SignDoc on a 2 MiB image; every entry is compared with a separate single-configuration call of sev.LaunchDigest / tdx.MRTD, the digest with SHA-384, the remaining fields with the request; plus failure injection with images valid for one technology only; plus every row of EndorseFlags.tla (image path x version files x technologies x ids x commit length x SVSM file x shape spellings) on the real endorse command: the request it prepares names the technologies, the security version of the version file next to the image, the machine shapes and the SVSM measurement the command line asked for"
 }
 
 // checkOutOfOrderSections: an image whose SNP metadata lists its sections out of address order; every
